@@ -25,7 +25,7 @@ class Agreement(PipelineBase):
         if small:
             self.name='C07.threshold_agreement_%dlinks_small'%nlinks
             self.hash_order='fixed'      # insertion order only here (order dependence is C13's subject; 3-4 entry maps under every permutation cost 10^5 paths)
-        self.bounds={'links':nlinks,'threshold':'any u32','materials':'per link any subset of {a,b}, one free digest byte per entry; the second link may record a as ./a; b recorded under sha256 by the first link and under sha256, sha512 or both by the others','products':'per link {} or {a} (a is also a material path), free digest byte',
+        self.bounds={'links':nlinks,'threshold':'any u32','materials':'per link any subset of {a,b} (small: {a}), one free digest byte per entry, plus optionally an entry e with an EMPTY digest table; the second link may record a as ./a; b recorded under sha256 by the first link and under sha256, sha512 or both by the others','products':'per link {} or {a} (a is also a material path), free digest byte',
                      'signature_validity':'link 0 valid; other links free (intact/over/made_by)','hash_map_iteration':'every permutation'}
         if self.hash_order!='all': self.bounds['hash_map_iteration']={'fixed':'insertion order','rot':'every rotation and the reversal of every map'}[self.hash_order]
         self.witnesses=['ok_thr2_agree','err_disagree','ok_thr1_disagree']
@@ -43,6 +43,8 @@ class Agreement(PipelineBase):
                     if p=='b' and i>=1 and not self.plain:      # the digests of b may be recorded under sha256, sha512 or both: the algorithm set is part of what must agree
                         al=run.pick(3,'alg%d'%i)
                         if al: mats[p]={'sha512':[z3.BitVec('dm5_%d_%s'%(i,p),8)]} if al==1 else {'sha256':mats[p],'sha512':[z3.BitVec('dm5_%d_%s'%(i,p),8)]}
+            # an artifact recorded without any digest (`"e": {}` - representable, e.g. written by another tool): it is still an entry the links must agree on
+            if not self.plain and run.pick(2,'m%de'%i): mats['e']={}
             prods={}
             # `a` may be both a material and a product (a file modified in place): the two tables are compared separately
             for p in (() if (self.small or self.plain) else ('a',)):
